@@ -415,14 +415,19 @@ pub fn main() {
         }
     }
     if args.dump.is_some() {
-        // cases dumped for the Miri stage: a directed subset in which every view / conversion form is equally frequent (in the
-        // full grid 80% of the small-N cases are length-mismatch attempts, which Miri has nothing to say about)
+        // cases dumped for the Miri stage: a directed subset in which every view / conversion form is equally frequent (the
+        // full grid is dominated by length-mismatch attempts with long sources)
         let mut seen = std::collections::HashSet::new();
         g.retain(|c| {
             [1usize, 2, 3, 5, 8, 16].contains(&c.n)
                 && matches!(c.kind, Kind::U8 | Kind::U32 | Kind::Tracked | Kind::Al32)
                 && match c.op {
-                    Op::Reinterpret(l, _) => l == c.n || l == c.n + 1,
+                    // too-short sources matter to Miri as well: a checked form that manufactures the reference before it looks
+                    // at the length creates a reference past the end of the source's allocation (the Vec holds exactly l items)
+                    Op::Reinterpret(l, _) => {
+                        [1usize, 3, 8].contains(&c.n) && matches!(c.kind, Kind::U32 | Kind::Tracked) && (l == c.n || l == c.n + 1 || l + 1 == c.n || (l == 0 && c.n <= 3))
+                    }
+                    Op::Views(..) => c.n != 2 && c.n != 5,
                     _ => true,
                 }
                 && seen.insert((c.n, c.kind, match c.op {
